@@ -147,3 +147,75 @@ CONV = REG.add(Contract(
     modifies=["self.nonbond_params"],
     props=("C09",),
 ))
+
+
+# ---- C09: '#define macros substituted' -- replace_defined_interaction ------------------------------------------------------------
+from pyvc.types import TRec as _TRec, slist_get as _get
+
+_INTER = _TRec("Interaction", parameters=TList(TStr))
+_DEFS = TDict(TStr, TList(TStr))
+OFF = z3.Function("expanded_before", z3.IntSort(), z3.IntSort())      # ghost: number of output parameters produced by the inputs before index i
+_i, _j, _a, _b = z3.Int("i_"), z3.Int("j_"), z3.Int("a_"), z3.Int("b_")
+
+
+def _def_of(defines, p):
+    return defines.v.unflat([c[ops.S(p)] for c in defines.comps])
+
+
+def _width(params, defines, i):
+    p = _get(params, i)
+    return z3.If(z3.Select(defines.dom, ops.S(p)), _def_of(defines, p).n, 1)
+
+
+def off_def(params, defines):
+    return z3.And(OFF(0) == 0, z3.ForAll([_i], z3.Implies(z3.And(0 <= _i, _i < params.n), OFF(_i + 1) == OFF(_i) + _width(params, defines, _i))))
+
+
+def off_monotone(params):
+    return z3.ForAll([_a, _b], z3.Implies(z3.And(0 <= _a, _a <= _b, _b <= params.n), OFF(_a) <= OFF(_b)))
+
+
+def lemma_off_monotone(ctx):
+    params = TList(TStr).fresh("params")
+    defines = _DEFS.fresh("defines")
+    b = z3.Int("b")
+    wf = z3.ForAll([z3.String("s_")], _def_of(defines, z3.String("s_")).n >= 0)
+    P = lambda bb: z3.ForAll([_a], z3.Implies(z3.And(0 <= _a, _a <= bb), OFF(_a) <= OFF(bb)))      # noqa: E731
+    return [("base: P(0)", [off_def(params, defines), params.n >= 0, wf], P(z3.IntVal(0))),
+            ("step: P(b) and b < len  ->  P(b + 1)", [off_def(params, defines), params.n >= 0, wf, 0 <= b, b < params.n, P(b)], P(b + 1))]
+
+
+def substituted(out, params, defines, upto):
+    """the first `upto` parameters, each replaced by the values of its define (in order) or kept when it names no define"""
+    p = _get(params, _i)
+    d = _def_of(defines, p)
+    return z3.ForAll([_i], z3.Implies(z3.And(0 <= _i, _i < upto), z3.And(
+        z3.Implies(z3.Select(defines.dom, ops.S(p)),
+                   z3.ForAll([_j], z3.Implies(z3.And(0 <= _j, _j < d.n), ops.S(_get(out, OFF(_i) + _j)) == ops.S(_get(d, _j))))),
+        z3.Implies(z3.Not(z3.Select(defines.dom, ops.S(p))), ops.S(_get(out, OFF(_i))) == ops.S(p)))))
+
+
+def row_substituted(out, values, base, upto):
+    return z3.ForAll([_j], z3.Implies(z3.And(0 <= _j, _j < upto), ops.S(_get(out, base + _j)) == ops.S(_get(values, _j))))
+
+
+REPLACE_DEFINED = REG.add(Contract(
+    "polyply.src.topology:replace_defined_interaction",
+    params=dict(interaction=_INTER, defines=_DEFS), result=_INTER,
+    axioms={"definition of the ghost offset expanded_before": "off_def(interaction.parameters, defines)",
+            "the offset is monotone (induction: lemma unit define-offsets-monotone)": "off_monotone(interaction.parameters)",
+            "lists have non-negative length": "defs_wf(defines)"},
+    ensures={"every parameter that names a #define is replaced by the values of the define, in order; every other parameter is kept; nothing is added or dropped":
+             "len(result.parameters) == OFF(len(old(interaction.parameters))) and substituted(result.parameters, old(interaction.parameters), defines, len(old(interaction.parameters)))",
+             "the interaction itself is updated": "same_params(result, interaction)"},
+    modifies=["interaction.parameters"],
+    locals={"new_parameters": TList(TStr)},
+    loops={0: Loop({"substituted so far": "len(new_parameters) == OFF(k) and substituted(new_parameters, interaction.parameters, defines, k)"}),
+           1: Loop({"substituted so far": "substituted(new_parameters, interaction.parameters, defines, k)",
+                    "this define so far": "len(new_parameters) == OFF(k) + kv and row_substituted(new_parameters, values, OFF(k), kv) and same_list(values, defines[parameter])"
+                    }, index="kv")},
+    spec_fns=dict(off_def=off_def, off_monotone=off_monotone, substituted=substituted, row_substituted=row_substituted, OFF=lambda x: OFF(x),
+                  defs_wf=lambda d: z3.ForAll([z3.String("s_")], _def_of(d, z3.String("s_")).n >= 0),
+                  same_params=lambda a, b: TList(TStr).eq(a.fields["parameters"], b.fields["parameters"]),
+                  same_list=lambda a, b: z3.And(a.n == b.n, *[x == y for x, y in zip(a.comps, b.comps)])),
+    props=("C09",)))
